@@ -28,6 +28,7 @@ def declare(rep):
              "so floor((max - min)/size) is one past the end whenever the extent is a multiple of the voxel size)", floor=12)
     rep.rule("C20.free-layer", "the region grid of the polarizer extends at least two voxel sizes beyond the node extrema on every side: its ray marching steps from a "
              "voxel that holds a node to the next one without a bounds test, and with ceil(extent/size) voxels one voxel of margin leaves no free layer when the extent is a multiple of the voxel size", floor=6)
+    rep.rule("C20.extent-covers-placed", "the region grid of the polarizer is dimensioned from the same set of points that is later placed into it (every slot of every cell's node list, free slots included)", floor=6)
     rep.rule("C20.update-dimensions", "update_dimensions assigns counts, origin and extent axis-consistently and sizes the storage with nx*ny*nz", floor=2)
     rep.rule("C20.loop-ranges", "get_grid_content visits [0,n) per axis; get_neighborhood visits [i-1 (clamped at 0), i+2 (clamped at n))", floor=2)
 
@@ -49,6 +50,7 @@ def run(rep, prog, tier):
         raise AnalysisBroken("grid classes not found (%d functions)" % len(fns))
     index_within_count(rep, prog)
     free_layer(rep, prog)
+    extent_covers_placed(rep, prog)
     for fn in fns:
         flatten(rep, prog, fn)
         quantisation(rep, prog, fn)
@@ -556,3 +558,81 @@ def free_layer(rep, prog):
                           "%s passes %s as the %s bound of axis %s of the region grid (voxel size %s): get_region_in_contact_with_face steps from the voxel of a node to the next voxel without a bounds test "
                           "(%s), and the grid has ceil(extent/size) voxels, so with less than two voxel sizes of margin the outermost nodes lie in the last layer whenever the extent is a multiple of the voxel size: "
                           "the ray leaves the grid (assertion / out-of-bounds read of voxel_lst_)" % (fn["qn"], clean(v), side, axis, clean(vs), prog.loc(ray)))
+
+
+def extent_covers_placed(rep, prog):
+    rule = "C20.extent-covers-placed"
+    ext = prog.fn("automatic_polarizer::update_grid_dimensions")
+    plc = prog.fn("automatic_polarizer::mark_boundary_voxels")
+    fe, fp = prog.index(ext), prog.index(plc)
+    places = [n for n in walk(plc["body"]) if n.get("k") == "CXXMemberCallExpr" and n.get("callee", "").endswith("::place_object")]
+    if len(places) != 1:
+        raise AnalysisBroken("mark_boundary_voxels: expected one place_object call")
+    def source(fi, n):
+        """(texts of the enclosing range-for ranges, innermost first; texts of the enclosing if conditions); loop variables are
+        replaced by $1, $2, ... (outermost first) so that their names do not matter"""
+        ranges, conds, lvars = [], [], []
+        for p_, slot, ch in fi.ancestors(n):
+            if p_.get("k") == "CXXForRangeStmt":
+                lvars.append(p_["var"]["name"])
+        lvars.reverse()
+        def norm(t):
+            for i_, v_ in enumerate(lvars):
+                t = re.sub(r"(?<![A-Za-z0-9_])%s(#\d+)?(?![A-Za-z0-9_])" % re.escape(v_), "$%d" % (i_ + 1), t)
+            return t.replace(" ", "")
+        source.norm = norm
+        for p_, slot, ch in fi.ancestors(n):
+            if p_.get("k") == "CXXForRangeStmt":
+                ranges.append(norm(render(p_["range"])))
+                continue
+            if p_.get("k") == "IfStmt":
+                conds.append(norm(render(p_["cond"])))
+                continue
+            if p_.get("k") in ("ForStmt", "WhileStmt"):
+                ranges.append("<index loop %s>" % norm(render(p_.get("cond") or {})))
+                continue
+        return ranges, conds
+        for p_, slot, ch in fi.ancestors(n):
+            if p_.get("k") == "CXXForRangeStmt":
+                ranges.append(render(p_["range"]).replace(" ", ""))
+            elif p_.get("k") == "IfStmt":
+                conds.append(render(p_["cond"]).replace(" ", ""))
+            elif p_.get("k") in ("ForStmt", "WhileStmt"):
+                ranges.append("<index loop %s>" % render(p_.get("cond") or {}).replace(" ", ""))
+        return ranges, conds
+    p_ranges, p_conds = source(fp, places[0])
+    arg = source.norm(render(call_args(places[0])[-1]))
+    # the six arguments of the grid constructor, traced back to the running extrema
+    ctor = [n for n in walk(ext["body"]) if n.get("k") in ("CXXConstructExpr", "CXXTemporaryObjectExpr") and (n.get("t") or "").startswith("uspg_3d") and len(n.get("c", [])) >= 7]
+    if not ctor:
+        raise AnalysisBroken("update_grid_dimensions: grid construction not found")
+    for i, a in enumerate(ctor[0]["c"][:6]):
+        a = strip(a)
+        axis, side = "xyz"[i % 3], ("lower" if i < 3 else "upper")
+        if a.get("k") != "DeclRefExpr":
+            raise AnalysisBroken("%s: bound %d of the region grid is not a local variable" % (prog.loc(ext, a), i))
+        did = a["ref"]["did"]
+        updates = [n for n in walk(ext["body"]) if n.get("k") in ("BinaryOperator",) and n.get("op") == "=" and strip(n["c"][0]).get("k") == "DeclRefExpr" and strip(n["c"][0])["ref"].get("did") == did
+                   and fe.enclosing(n, ("CXXForRangeStmt", "ForStmt", "WhileStmt")) is not None]
+        why = None
+        if not updates:
+            why = "it is not updated inside a loop over the points"
+        else:
+            u = updates[0]
+            ranges, conds = source(fe, u)
+            rhs = source.norm(render(u["c"][1]))
+            tname = re.sub(r"#\d+", "", render(strip(u["c"][0])).replace(" ", ""))
+            extra = [c for c in conds if tname not in re.sub(r"#\d+", "", c)]
+            want_rhs = arg + ".d%s()" % axis
+            if ranges != p_ranges:
+                why = "it ranges over %s while mark_boundary_voxels places the points of %s" % (ranges or "nothing", p_ranges)
+            elif extra != p_conds:
+                why = "it only takes the points satisfying %s while mark_boundary_voxels places %s" % (extra, p_conds or "every point")
+            elif want_rhs not in rhs or any((arg + ".d%s()" % o) in rhs for o in "xyz" if o != axis):
+                why = "it takes %s where the point placed is %s (axis %s)" % (rhs, arg, axis)
+        if why is None:
+            rep.ok(rule, prog, ext, a, "%s bound of axis %s: running extremum of %s.d%s() over %s" % (side, axis, arg, axis, " / ".join(p_ranges)))
+        else:
+            rep.violation(rule, prog, ext, a, "grid extent not taken over the points that are placed",
+                          "update_grid_dimensions: the %s bound of axis %s (%s): %s. A point that is placed but was not used for the extent (e.g. a free node slot whose position was reset to the origin) lies outside "
+                          "the declared box: assertion / out-of-range voxel index in place_object" % (side, axis, a["ref"]["name"], why))
